@@ -18,7 +18,8 @@
                           its blocks, front block first (written out in c15_abs below)            *)
 From OlaBase Require Import Bytes.
 From C15 Require Import Model Spec Sender ProofsBlock Proofs ProofsSender ProofsStream ProofsWrap Cross ProofsCross
-  ProofsHetero Multi MultiSpec ProofsMulti Len32 ProofsLen32.
+  ProofsHetero Multi MultiSpec ProofsMulti Len32 ProofsLen32
+  ProofsStream ProofsPurge Sender2 ProofsSender2.
 Local Open Scope nat_scope.
 
 (* what "the bytes a buffer holds" means concretely *)
@@ -360,6 +361,77 @@ Theorem c15_len_any_pwrite : forall max x k,
   forall n bound, natlen (N.of_nat n) bound = clamp n bound.
 Proof. exact (fun max x k => conj (pwrite_clamp max x k) natlen_clamp). Qed.
 Print Assumptions c15_len_any_pwrite.
+
+(* ================================================================== round 6 ===================
+   Purge over several pools.  step2's PoolPurge is Purge() of every pool (exact while no pool has
+   more free blocks than it allocated; otherwise the counter wraps and the model stops, see
+   c15_crosspool_refuted).  For every history - Purge included - in which no block migrates
+   (op_ok3: every AppendMove / MoveToIOQueue is between buffers bound to the same pool), over any
+   number of pools: no hazard, the byte-list specification is matched, and the ONE-POOL accounting
+   clause holds exactly for EVERY pool: allocated = free + held by its buffers. *)
+Theorem c15_multi_purge_exact : forall bss qp sp ops,
+  Forall (fun bs => 1 <= bs) bss ->
+  Forall (fun k => k < length bss) qp -> Forall (fun k => k < length bss) sp ->
+  Forall (op_ok3 qp sp) ops ->
+  exists st outs, run2 (init2 bss qp sp) ops = Ok (st, outs) /\
+    arun (ainit (length qp) (length sp)) ops = (abs2 st, map out_abs outs) /\
+    (forall k, k < length bss -> alloc2 st k = free2 st k + held2 st k) /\
+    total_alloc st = total_free st + total_held st.
+Proof. exact purge_exact. Qed.
+Print Assumptions c15_multi_purge_exact.
+
+(* NonBlockingSender over several pools (Sender2.v: the extended operations on the several-pools
+   state; queue 0 = the sender's output buffer on its own pool, messages arrive from stacks and
+   queues of ANY pool).  Same statement as c15_sender_conserves: accepted bytes ++ pending bytes =
+   accepted messages in order, for every history and every script of kernel answers; registration
+   iff pending; block totals balance (per pool they drift by the migrated blocks,
+   c15_multi_accounting). *)
+Theorem c15_sender_conserves_multi : forall bss qp sp max ops,
+  ymulti_ok bss qp sp ops ->
+  exists y outs,
+    yrun max (yinit bss qp sp) ops = Ok (y, outs) /\
+    let ax := fst (axrun max (axinit (length qp) (length sp)) ops) in
+    let pending := abs_buf (blk (m_q (y_st y)) 0) in
+    map xout_abs outs = snd (axrun max (axinit (length qp) (length sp)) ops) /\
+    abs2 (y_st y) = ax_a ax /\
+    sent_of outs ++ pending = ax_queued ax /\
+    (pending = [] -> sent_of outs = ax_queued ax) /\
+    y_assoc y = negb (is_nil pending) /\ y_reg y = y_assoc y /\
+    total_alloc (y_st y) = total_free (y_st y) + total_held (y_st y).
+Proof. exact sender2_conserves. Qed.
+Print Assumptions c15_sender_conserves_multi.
+
+(* Stream round trip on a queue of any pool after any several-pools history. *)
+Theorem c15_stream_roundtrip_multi : forall bss qp sp max pre (vals : list (nat * N)) i y0 outs0,
+  ymulti_ok bss qp sp pre -> i < length qp -> i <> 0 ->
+  yrun max (yinit bss qp sp) pre = Ok (y0, outs0) ->
+  abs_buf (blk (m_q (y_st y0)) i) = [] ->
+  exists y1 outs,
+    yrun max y0 (map (fun wv => UOp (QWriteBE i (fst wv) (snd wv))) vals ++
+                 map (fun wv => QIn i (fst wv)) vals) = Ok (y1, outs) /\
+    map xout_abs outs =
+      map (fun _ => XUser ONone) vals ++
+      map (fun wv => XIn true (snd wv mod 256 ^ N.of_nat (fst wv))%N) vals /\
+    abs_buf (blk (m_q (y_st y1)) i) = [].
+Proof. exact stream2_roundtrip. Qed.
+Print Assumptions c15_stream_roundtrip_multi.
+
+(* non-vacuity: sender on a 2-byte pool, messages from a stack and a queue on a 3-byte pool *)
+Definition ex_yops : list xop :=
+  [UOp (SWrite 0 [1;2;3;4]%N); SendS 0; UOp (QWrite 1 [5;6]%N); SendQ 1; PWrite (Some 3); PWrite None;
+   PWrite (Some 9); UOp (QWriteBE 1 2 258%N); QIn 1 2].
+Example ex_yok : ymulti_ok [2; 3] [0; 1] [1] ex_yops.
+Proof.
+  unfold ymulti_ok, ex_yops, yop_ok. cbn [length]. repeat split; repeat constructor; try lia; discriminate.
+Qed.
+Example ex_yrun :
+  exists y, yrun 100 (yinit [2; 3] [0; 1] [1]) ex_yops =
+    Ok (y, [XUser ONone; XBool true; XUser ONone; XBool true; XSent (Some [1;2;3]%N); XSent None;
+            XSent (Some [4;5;6]%N); XUser ONone; XIn true 258]).
+Proof. eexists. vm_compute. reflexivity. Qed.
+Example ex_ok3 : Forall (op_ok3 [0; 1; 1] [1])
+  [QWrite 1 [1;2;3]%N; QAppendMove 2 1; SWrite 0 [4]%N; SMove 0 2; QRead 2 9; PoolPurge; QWrite 0 [7]%N].
+Proof. repeat constructor; cbn; lia. Qed.
 
 (* ------------------------------------------------------------------ non-vacuity *)
 (* a history that satisfies every hypothesis above and exercises block boundaries, a stack to
